@@ -6,7 +6,7 @@ use serde::{Deserialize, Serialize};
 use std::cell::RefCell;
 use std::collections::HashMap;
 use std::rc::Rc;
-use vcore::dfs::{explore, Bound, Env};
+use vcore::dfs::{Bound, Env};
 use vcore::num::{next_down, next_up};
 use vcore::{json, Check, Outcome, Report, Tier, Value};
 
@@ -129,6 +129,14 @@ pub struct EnvPt {
     pub len_rel: f64,
     pub tol: f64,
     pub dev_bound: u32,
+    /// second deviation within this many choice points of the first (0 = anywhere)
+    #[serde(default)]
+    pub window: usize,
+    /// the exploration is spread over `stripes` points by the position of the first deviation
+    #[serde(default)]
+    pub stripes: usize,
+    #[serde(default)]
+    pub stripe: usize,
     /// replay: exactly this choice list
     #[serde(default)]
     pub choices: Option<Vec<u32>>,
@@ -179,14 +187,21 @@ impl Check for DerivativeEnv {
         "E2 on the derivative: y' = -y + sin t answered as base + D*tol with D in {0, 30, 3000} at every new argument (memoised on the argument bits), at most d answers non-default anywhere in the run (d = 1 quick, 2 thorough), for 6 adaptive solvers x 3 interval lengths (0.6, 2.2, 7.5 start-up lengths) x tolerance; every complete execution judged by the structural oracle; signature = gap classes of the execution".into()
     }
     fn axes(&self, t: Tier) -> Value {
-        json!({"solvers": ADAPTIVE.iter().map(|s| s.name()).collect::<Vec<_>>(), "len_rel": [0.6, 2.2, 7.5], "tol": t.pick(vec![1e-4], vec![1e-4, 1e-7]), "deviations_x_tol": DEVS, "deviation_bound": t.pick(1, 2)})
+        json!({"solvers": ADAPTIVE.iter().map(|s| s.name()).collect::<Vec<_>>(), "len_rel": [0.6, 2.2, 7.5], "tol": t.pick(vec![1e-4], vec![1e-4, 1e-7]), "deviations_x_tol": DEVS, "deviation_bound": t.pick(1, 2), "second_deviation_window": "none when the all-default run has <= 130 new arguments, else 24", "deviation_horizon": "1.5 N + 50 new arguments"})
     }
     fn points(&self, t: Tier) -> Vec<EnvPt> {
         let mut v = vec![];
         for &solver in &ADAPTIVE {
             for &len_rel in &[0.6, 2.2, 7.5] {
                 for &tol in &t.pick(vec![1e-4], vec![1e-4, 1e-7]) {
-                    v.push(EnvPt { solver, len_rel, tol, dev_bound: t.pick(1, 2), choices: None });
+                    // thorough: two deviations anywhere for the short intervals; for the long one the second
+                    // deviation within 48 choice points of the first (the interactions of interest are local: a
+                    // rejection followed by another, a perturbed start-up followed by a rejection, ...)
+                    let window = 0; // chosen at run time from the length of the all-default execution
+                    let stripes = t.pick(1, 16);
+                    for stripe in 0..stripes {
+                        v.push(EnvPt { solver, len_rel, tol, dev_bound: t.pick(1, 2), window, stripes, stripe, choices: None });
+                    }
                 }
             }
         }
@@ -211,10 +226,19 @@ impl Check for DerivativeEnv {
             judge(&mut env);
             o.executions = 1;
         } else {
-            let st = explore(Bound::Dev(p.dev_bound), 5_000_000, &mut judge);
+            // the all-default execution fixes the horizon: deviations are placed among the first 1.5 N + 50 new
+            // arguments (a large deviation can make a run ten times longer; those extra arguments are not branched on)
+            let mut base_env = Env::fixed(&[]);
+            let (_, base_log) = env_run(p, &mut base_env);
+            let n_base = base_log.len();
+            let horizon = n_base + n_base / 2 + 50;
+            let bound = if p.dev_bound < 2 { Bound::Dev(p.dev_bound) } else if n_base > 130 { Bound::DevWindow(p.dev_bound, p.window.max(24)) } else { Bound::Dev(p.dev_bound) };
+            let st = vcore::dfs::explore_horizon(bound, 50_000_000, p.stripes.max(1), p.stripe, horizon, &mut judge);
+            o.metric(&format!("second-deviation-window[{}|len{}|tol{:e}]", p.solver.name(), p.len_rel, p.tol), if let Bound::DevWindow(_, w) = bound { w as f64 } else { 0.0 });
             o.executions = st.paths;
             o.states = st.nodes;
             o.transitions = st.nodes.saturating_sub(1);
+            o.metric(&format!("choice-points[{}|len{}|tol{:e}]", p.solver.name(), p.len_rel, p.tol), st.max_depth as f64);
             if st.capped {
                 o.capped = Some(format!("path cap hit for {:?}", p));
             }
